@@ -56,13 +56,58 @@ end Prog
 @[simp] theorem World.get_put_same (w : World) (t : Tier) (s : Store) : (w.put t s).get t = s := by
   cases t <;> rfl
 
-@[simp] theorem World.get_put_l1_l2 (w : World) (s : Store) : (w.put .l1 s).get .l2 = w.get .l2 := rfl
-@[simp] theorem World.get_put_l2_l1 (w : World) (s : Store) : (w.put .l2 s).get .l1 = w.get .l1 := rfl
-@[simp] theorem World.l1_put_l1 (w : World) (s : Store) : (w.put .l1 s).l1 = s := rfl
-@[simp] theorem World.l2_put_l1 (w : World) (s : Store) : (w.put .l1 s).l2 = w.l2 := rfl
-@[simp] theorem World.l1_put_l2 (w : World) (s : Store) : (w.put .l2 s).l1 = w.l1 := rfl
-@[simp] theorem World.l2_put_l2 (w : World) (s : Store) : (w.put .l2 s).l2 = s := rfl
-@[simp] theorem World.get_l1 (w : World) : w.get .l1 = w.l1 := rfl
-@[simp] theorem World.get_l2 (w : World) : w.get .l2 = w.l2 := rfl
+@[simp] theorem World.get_put_l1_l2 (w : World) (s : Store) : (w.put Tier.l1 s).get Tier.l2 = w.get Tier.l2 := rfl
+@[simp] theorem World.get_put_l2_l1 (w : World) (s : Store) : (w.put Tier.l2 s).get Tier.l1 = w.get Tier.l1 := rfl
+@[simp] theorem World.l1_put_l1 (w : World) (s : Store) : (w.put Tier.l1 s).l1 = s := rfl
+@[simp] theorem World.l2_put_l1 (w : World) (s : Store) : (w.put Tier.l1 s).l2 = w.l2 := rfl
+@[simp] theorem World.l1_put_l2 (w : World) (s : Store) : (w.put Tier.l2 s).l1 = w.l1 := rfl
+@[simp] theorem World.l2_put_l2 (w : World) (s : Store) : (w.put Tier.l2 s).l2 = s := rfl
+@[simp] theorem World.get_l1 (w : World) : w.get Tier.l1 = w.l1 := rfl
+@[simp] theorem World.get_l2 (w : World) : w.get Tier.l2 = w.l2 := rfl
+
+end Rend
+
+namespace Rend
+
+/-- With no fault planned and both backend connections alive, the runner the driver executes
+    (`Prog.runSt`) computes exactly `Prog.eval`. -/
+theorem Prog.runSt_none_eval {ε α : Type} (now : Nat) (p : Prog ε α) :
+    ∀ s : RunSt, s.dead1 = false → s.dead2 = false →
+      (p.runSt now none s).1 = (p.eval now s.w s.toks).1 ∧
+      (p.runSt now none s).2.1 = (p.eval now s.w s.toks).2.1 ∧
+      (p.runSt now none s).2.2.w = (p.eval now s.w s.toks).2.2.1 ∧
+      (p.runSt now none s).2.2.toks = (p.eval now s.w s.toks).2.2.2 ∧
+      (p.runSt now none s).2.2.dead1 = false ∧ (p.runSt now none s).2.2.dead2 = false := by
+  induction p with
+  | ret a => intro s h1 h2; exact ⟨rfl, rfl, rfl, rfl, h1, h2⟩
+  | call t r k ih =>
+    intro s h1 h2
+    cases t with
+    | l1 =>
+      have := ih (Mc.exec now (s.w.get Tier.l1) r).2
+        { (s.bump Tier.l1) with w := s.w.put Tier.l1 (Mc.exec now (s.w.get Tier.l1) r).1, trace := (s.bump Tier.l1).trace ++ [⟨Tier.l1, r, (Mc.exec now (s.w.get Tier.l1) r).2⟩] } h1 h2
+      simp only [Prog.runSt, Prog.eval, RunSt.exec, RunSt.dead, h1, Bool.false_eq_true, if_false]
+      exact this
+    | l2 =>
+      have := ih (Mc.exec now (s.w.get Tier.l2) r).2
+        { (s.bump Tier.l2) with w := s.w.put Tier.l2 (Mc.exec now (s.w.get Tier.l2) r).1, trace := (s.bump Tier.l2).trace ++ [⟨Tier.l2, r, (Mc.exec now (s.w.get Tier.l2) r).2⟩] } h1 h2
+      simp only [Prog.runSt, Prog.eval, RunSt.exec, RunSt.dead, h2, Bool.false_eq_true, if_false]
+      exact this
+  | draw k ih =>
+    intro s h1 h2
+    cases htk : s.toks with
+    | nil =>
+      have := ih (Bytes.zeros 16) s h1 h2
+      simp only [Prog.runSt, Prog.eval, htk] at this ⊢
+      exact this
+    | cons x xs =>
+      have := ih x { s with toks := xs } h1 h2
+      simp only [Prog.runSt, Prog.eval, htk] at this ⊢
+      exact this
+  | emit e p ih =>
+    intro s h1 h2
+    obtain ⟨a1, a2, a3, a4, a5, a6⟩ := ih s h1 h2
+    simp only [Prog.runSt, Prog.eval]
+    exact ⟨a1, by rw [a2], a3, a4, a5, a6⟩
 
 end Rend
